@@ -360,7 +360,7 @@ pub fn execute(s: &FixScn) -> FixRun {
 
 /// Delivery-time, ordering, drop and loopback oracles over the log.
 fn timing(log: &[Ev], evals: &[Evaluation], local_tags: &BTreeSet<u64>, tapped: &[Tag], an: &mut Analysis) {
-    let mut count = |an: &mut Analysis, k: &str, n: u64| *an.counters.entry(k.to_string()).or_default() += n;
+    let count = |an: &mut Analysis, k: &str, n: u64| *an.counters.entry(k.to_string()).or_default() += n;
     // loopback
     let tapped_udp: BTreeSet<u64> = tapped.iter().filter(|t| t.udp).map(|t| t.id).collect();
     let tapped_all: BTreeSet<&Tag> = tapped.iter().collect();
